@@ -86,7 +86,7 @@ func parseFraming(b []byte) (*blobFraming, error) {
 		if s.blkSize == 0 {
 			continue
 		}
-		if uint64(off)+s.blkSize > uint64(len(b)) {
+		if s.blkSize > uint64(len(b)-off) {
 			return nil, errors.New(secNames[i] + " block beyond input")
 		}
 		s.typeOff = off
@@ -138,7 +138,7 @@ func declaredTooBig(b []byte) bool {
 		if blk == 0 {
 			continue
 		}
-		if uint64(off)+blk > uint64(len(b)) {
+		if blk > uint64(len(b)-off) {
 			return false // rejected by the size check before anything is allocated
 		}
 		typ := b[off]
